@@ -90,7 +90,7 @@ pub fn count(stream: &str, thorough: bool, scale: f64) -> u64 {
         "args3" => if thorough { 400_000 } else { 90_000 },
         "args2" => if thorough { 150_000 } else { 40_000 },
         "numeric" => if thorough { 150_000 } else { 20_000 },
-        "special" => 2_000,
+        "special" => 4_000,
         "vocab" => if thorough { 150_000 } else { 20_000 },
         "multibyte" => if thorough { 50_000 } else { 8_000 },
         "longwords" => if thorough { 200_000 } else { 30_000 },
@@ -208,6 +208,16 @@ pub fn input(seed: u64, stream: &str, i: u64) -> String {
                 "-o", "-printf '%{xattr:'", "-printf '%{'", "-perm /", "-perm -", "-perm u", "-perm u+", "-size +", "-uid -", "-type ,", "-name ''", "-name \"\"", "-fprintf '' ''",
             ];
             let base = specials[(i % specials.len() as u64) as usize].to_string();
+            // every other case: a user string that spells a piece of the emitted program, at a random
+            // string-carrying site, in a quoting style that can carry it
+            if i % 2 == 1 {
+                let sp = crate::gen::program_spellings();
+                let w = &sp[((i / 2) % sp.len() as u64) as usize];
+                if let Some(q) = crate::gen::word(w, 1 + r.below(2) as u8) {
+                    let site = ["-name {}", "-iname {}", "-path {}", "-pool {}", "-xattr {}", "-xattr-match user {}", "-xattr-match {} v", "-fprint {}", "-fprintf {} %p", "-name {} -print0", "-pool {} -fprint f", "-printf {}", "-uid 1 -o -name {}"][r.usize(13)];
+                    return site.replace("{}", &q);
+                }
+            }
             match (i / specials.len() as u64) % 4 {
                 0 => base,
                 1 => format!("-true {}", base),
